@@ -130,8 +130,15 @@ def fresh_stamp_rules(ctx, m, op_roots, rule="K3-fresh-stamp"):
                 kind = is_clock_like(m, tcomp, stamp) if tcomp is not None else None
                 if stamp is not None and kind == "clock":
                     kind = None
+                if kind is None and v[0] == "field" and v[2] == "key":
+                    # the stored key, re-written earlier in this operation on every path to the insertion (the value written
+                    # there is judged by the key-write rule K3-queue-time)
+                    kw = [w for w in q.writes(field="key", owner="OrderEntry") if same(w.addr[1], v[1]) and w.b in live and
+                          (q.body.dominates(w.b, c.b) or q.cfg.all_paths_pass(0, c.b, [w.b]))]
+                    if kw:
+                        kind = "rewritten"
                 ctx.check(kind is not None, rule, "%s|%s|%s" % (f.short(), S, c.sp["line"] if hasattr(c, "sp") else c.b), c.loc(),
-                          "%s-side insertion in %s files the order under a queue time taken in this operation (%s)" % (S, f.name, render(tcomp) if tcomp is not None else "?"),
+                          "%s-side insertion in %s files the order under a queue time taken in this operation (%s)" % (S, f.name, "key re-written in this operation" if kind == "rewritten" else (render(tcomp) if tcomp is not None else "?")),
                           "%s-side insertion in %s files the order under %s: the queue time is not taken in this operation (an order created early and placed late would "
                           "jump ahead of orders already resting at its price)" % (S, f.name, render(v)[:120]))
     return n
